@@ -18,6 +18,23 @@
 (*             the balance transformation is B = sigma S^-1, B J = sigma Q *)
 (*             and Aligned-MTL(u) = sigma u^T Q.                           *)
 (*  "zero"     all-zero matrices of every shape: the zero vector.          *)
+(*  "wide"     VERY WIDE presentations of the two exact families: every    *)
+(*             column of a base instance J repeated r = 4^k times and the  *)
+(*             whole scaled by 2^-k (k = 8, 9: n = 2^17 .. 2^20 columns).  *)
+(*             Widening by 4 and halving keeps the Gramian, hence norms,   *)
+(*             weights, sigma_min and the condition number, and every one  *)
+(*             of the three aggregators commutes with it:                  *)
+(*               Agg(Widen(J)) = Widen(Agg(J))      (WidenStep, checked    *)
+(*             by TLC for one and two steps with the operators of the base *)
+(*             families; the general k follows by induction).  The base    *)
+(*             instances are one S per spectrum (characteristic polynomial)*)
+(*             of the "aligned" candidates, each with every Q, and the     *)
+(*             "pyth" instances over the first rows of every list.  The    *)
+(*             model also decides whether all n-term reductions over the   *)
+(*             columns (Gramian, row norms) are EXACT in float32 whatever  *)
+(*             the summation order (all partial sums are integers < 2^24   *)
+(*             in units of the smallest product); in float64 they always   *)
+(*             are.  So the allowance of the narrow instance applies.      *)
 (*                                                                         *)
 (* TLC checks on every instance that the exported value satisfies the      *)
 (* defining equalities of the statement (weights sum to one and equal      *)
@@ -188,12 +205,71 @@ AlignedDefining(S, q, sg) ==
         /\ sg >= 1 /\ IDet(Shift(S, sg)) = 0 /\ PSD(Shift(S, sg))
 
 -----------------------------------------------------------------------------
+(* Family "wide": column-repeated presentations of exact instances          *)
+
+WideK == IF Level >= 2 THEN {8, 9} ELSE {9}
+Widen(J, r) == [i \in 1..Len(J) |-> [c \in 1..(r * Len(J[i])) |-> J[i][((c - 1) \div r) + 1]]]
+WidenVec(v, r) == [c \in 1..(r * Len(v)) |-> v[((c - 1) \div r) + 1]]
+HalfQ(x) == Q2(x[1], 2 * x[2])                                  \* x / 2 for a rational x
+WidenQ(q) == [n |-> 4 * q.n, den |-> 2 * q.den, num |-> Widen(q.num, 4)]      \* still orthonormal rows
+
+\* one step (4 copies of every column, halved) on an "aligned" instance: the widened Q still has
+\* orthonormal rows, S and sigma are unchanged, so AlignedDefining holds for it, and the exact value
+\* and the re-balanced rows are the widened halved ones
+AlignedWidenStep(S, q, sg) ==
+    LET qw == WidenQ(q) IN
+    /\ AlignedDefining(S, qw, sg)
+    /\ \A p \in {<<[i \in 1..Len(S) |-> 1], Len(S)>>, <<[i \in 1..Len(S) |-> i], 1>>} :
+          LET a == Aligned(S, q, sg, p[1], p[2])  aw == Aligned(S, qw, sg, p[1], p[2]) IN
+          /\ aw.A = [c \in 1..qw.n |-> HalfQ(WidenVec(a.A, 4)[c])]
+          /\ aw.R = [i \in 1..Len(S) |-> [c \in 1..qw.n |-> HalfQ(WidenVec(a.R[i], 4)[c])]]
+          /\ aw.sigma = a.sigma /\ aw.kb = a.kb
+\* one step on a "pyth" instance (un-halved: Widen(J, 4) has integer norms 2 d): Gramian 4 G,
+\* same weights, widened value; ConFIG likewise
+PythWidenStep(J) ==
+    LET n == Len(J[1])  Jw == Widen(J, 4)  co == Core(J)  cw == Core(Jw) IN
+    /\ cw.G = [i \in 1..Len(J) |-> [j \in 1..Len(J) |-> 4 * co.G[i][j]]]
+    /\ cw.d = [i \in 1..Len(J) |-> 2 * co.d[i]]
+    /\ co.det > 0 =>
+        /\ LET a == IMTLG(J, n, co)  aw == IMTLG(Jw, 4 * n, cw) IN
+              /\ aw.defined = a.defined /\ aw.w = a.w /\ aw.w1 = a.w1
+              /\ a.defined => aw.A = WidenVec(a.A, 4)
+              /\ IMTLGDefining(Jw, cw, aw)
+        /\ \A u \in Prefs(Len(J)) :
+              LET c == ConFIG(J, n, u, co)  cfw == ConFIG(Jw, 4 * n, u, cw) IN
+              cfw.A = WidenVec(c.A, 4) /\ ConFIGDefining(Jw, cw, cfw)
+
+\* exactness of the n-term reductions of the wide instance in a p-bit significand: the entries are
+\* Jn[i][c] / (den 2^k) with den a power of two, every product is an integer in units of
+\* 1 / (den^2 4^k), and every partial sum of any sub-collection of the 4^k x n products of rows i, j
+\* is an integer of magnitude <= 4^k AbsGram[i][j]: exactly representable iff that is <= 2^p.
+AbsGramMax(Jn) == LET m == Len(Jn)
+                      v == {ISum([c \in 1..Len(Jn[1]) |-> Abs(Jn[i][c] * Jn[j][c])]) : i \in 1..m, j \in 1..m}
+                  IN  CHOOSE x \in v : \A y \in v : y <= x
+Exact32(Jn, k) == AbsGramMax(Jn) <= Pow(2, 24) \div Pow(4, k)
+Exact64(Jn, k) == AbsGramMax(Jn) <= Pow(2, 30)                  \* 4^k 2^30 <= 2^53 for k <= 11
+
+\* base instances: one S per characteristic polynomial (the spectrum is what the balance
+\* transformation depends on), the one with the largest off-diagonal mass
+CharPoly(S) == <<TraceM(S), ISum([i \in 1..Len(S) |-> IDet(Minor(S, i, i))]), IDet(S)>>
+OffAbs(S)   == ISum([i \in 1..Len(S) |-> ISum([j \in 1..Len(S) |-> IF i < j THEN Abs(S[i][j]) ELSE 0])])
+WideAdm(m)  == {S \in SymCands(m) : LET sg == IntLamMin(S) IN
+                                     sg >= 1 /\ TraceM(S) * TraceM(S) <= KMax * sg * sg}
+RepsOf(C)   == LET tab == {<<S, CharPoly(S), OffAbs(S)>> : S \in C}
+                   cps == {t[2] : t \in tab}
+               IN  {(CHOOSE t \in tab : t[2] = cp /\ \A x \in tab : x[2] = cp => x[3] <= t[3])[1] : cp \in cps}
+WideReps2 == RepsOf(WideAdm(2))        \* constant-level, zero arity: evaluated once
+WideReps3 == RepsOf(WideAdm(3))
+WideReps(m) == IF m = 2 THEN WideReps2 ELSE WideReps3
+WideAvail(n) == IF Level >= 2 THEN (IF n = 5 THEN 4 ELSE 5) ELSE (IF n = 5 THEN 3 ELSE 4)
+
+-----------------------------------------------------------------------------
 (* Enumeration as a state machine (one state per instance, so that the workers share the work) *)
 
 VARIABLES fam, inst
 vars == <<fam, inst>>
 
-Init == fam \in {"pyth", "aligned", "zero"} /\ inst = <<"none">>
+Init == fam \in {"pyth", "aligned", "zero", "wide"} /\ inst = <<"none">>
 
 \* pyth: choose n, then the smallest row index, then the remaining rows
 PickPyth ==
@@ -216,7 +292,17 @@ PickAligned ==
 PickZero == /\ fam = "zero" /\ inst = <<"none">>
             /\ \E m \in 1..4, n \in 1..5 : inst' = <<"zero", m, n>>
             /\ UNCHANGED fam
-Next == PickPyth \/ PickAligned \/ PickZero
+\* wide: choose k, then a base instance of either exact family
+PickWide ==
+    /\ fam = "wide"
+    /\ \/ inst = <<"none">> /\ \E k \in WideK : inst' = <<"wide_k", k>>
+       \/ inst[1] = "wide_k" /\ \E m \in 2..3 : \E S \in WideReps(m) : \E q \in QChoices(m) :
+              inst' = <<"wide_aligned", S, q, IntLamMin(S), inst[2]>>
+       \/ inst[1] = "wide_k" /\ \E n \in 2..5 : \E T \in SUBSET (1..WideAvail(n)) :
+              /\ Cardinality(T) >= 2 /\ Cardinality(T) <= 3 /\ Cardinality(T) <= n
+              /\ inst' = <<"wide_pyth", PythJ(<<n, T>>), inst[2]>>
+    /\ UNCHANGED fam
+Next == PickPyth \/ PickAligned \/ PickZero \/ PickWide
 Spec == Init /\ [][Next]_vars
 
 \* ---- export (the exported record is what the defining equalities are checked on)
@@ -235,6 +321,17 @@ PythChecked(J, sc) ==
     co.det > 0 => /\ IMTLGDefining(J, co, sc.imtlg)
                   /\ \A k \in 1..Len(sc.config) : ConFIGDefining(J, co, sc.config[k])
 AlignedOK == inst[1] = "aligned" => AlignedDefining(inst[2], inst[3], inst[4])
+\* the widening step on every base instance of the wide family (the step is generic in q, and WidenQ(q) is
+\* again a q with orthonormal rows, so k steps follow by induction; thorough also takes the second step
+\* explicitly for the aligned instances - for pyth a second step overflows TLC's 32-bit determinants)
+WideOK == /\ inst[1] = "wide_aligned" =>
+               /\ AlignedDefining(inst[2], inst[3], inst[4])
+               /\ AlignedWidenStep(inst[2], inst[3], inst[4])
+               /\ Level >= 2 => AlignedWidenStep(inst[2], WidenQ(inst[3]), inst[4])
+               /\ Exact64(MatMat(inst[2], inst[3].num, inst[3].n), inst[5])
+          /\ inst[1] = "wide_pyth" =>
+               /\ PythWidenStep(inst[2])
+               /\ Exact64(inst[2], inst[3])
 
 AlignedPrefs(m) == {<<[i \in 1..m |-> 1], m>>, <<[i \in 1..m |-> i], 1>>}
                    \cup {<<[i \in 1..m |-> IF i = k THEN 1 ELSE 0], 1>> : k \in 1..m}
@@ -247,5 +344,17 @@ Export ==
                                   PythChecked(inst[2], sc) /\ PrintT(<<"SCN", ToJson(sc)>>)
       [] inst[1] = "aligned" -> PrintT(<<"SCN", ToJson(AlignedScenario(inst[2], inst[3], inst[4]))>>)
       [] inst[1] = "zero"    -> PrintT(<<"SCN", ToJson([fam |-> "zero", m |-> inst[2], n |-> inst[3]])>>)
+      [] inst[1] = "wide_aligned" ->
+            LET Jn == MatMat(inst[2], inst[3].num, inst[3].n)  k == inst[5] IN
+            PrintT(<<"SCN", ToJson([fam |-> "wide", kind |-> "aligned", k |-> k, rep |-> Pow(4, k),
+                                    m |-> Len(inst[2]), n |-> inst[3].n * Pow(4, k),
+                                    absgram |-> AbsGramMax(Jn), exact32 |-> Exact32(Jn, k),
+                                    base |-> AlignedScenario(inst[2], inst[3], inst[4])])>>)
+      [] inst[1] = "wide_pyth" ->
+            LET J == inst[2]  k == inst[3]  sc == PythScenario(J) IN
+            PythChecked(J, sc) /\
+            PrintT(<<"SCN", ToJson([fam |-> "wide", kind |-> "pyth", k |-> k, rep |-> Pow(4, k),
+                                    m |-> Len(J), n |-> Len(J[1]) * Pow(4, k),
+                                    absgram |-> AbsGramMax(J), exact32 |-> Exact32(J, k), base |-> sc])>>)
       [] OTHER -> TRUE
 =============================================================================
